@@ -147,6 +147,8 @@ def vary_container(rng, spec):
     spec['glat_version'] = rng.choice([1, 2, 3])
     spec['gloc_long'] = rng.random() < 0.5
     spec['gloc_attrids'] = rng.random() < 0.3
+    spec['glat_runs'] = rng.choice(['max', 'max', 'single', 'split'])       # legal, equivalent encodings of the attribute runs
+    spec['glat_dense'] = rng.choice([False, False, 'odd', 'late', 'all'])            # default (0) values stored explicitly, for all / some glyphs
     spec['loca_long'] = rng.random() < 0.3
     if spec.get('feats') and 'feat_version' not in spec:
         spec['feat_version'] = rng.choice([1, 2])
@@ -264,6 +266,18 @@ def hostile_spec(rng):
         if rng.random() < 0.5:
             rule = {'pre': 0, 'pat': [-1, -1], 'acts': [second[:0] + [('put_copy', 1)] if kind == 5 else [], [('put_glyph', c), ('delete',)]], 'cons': [None, None], 'ret': 0}    # ... and the mirror image (last slot)
         spec['passes'][0]['rules'].insert(rng.randrange(0, len(spec['passes'][0]['rules']) + 1), rule)
+    if kind == 7 and spec['passes'][0]['type'] in ('sub', 'lb'):
+        # attachments made in the substitution phase, then a rule that inserts a COPY of a glyph that already has children (and, in
+        # half of the fonts, deletes or re-copies an attached glyph): what the copy does with parent / child / sibling pointers
+        c = rng.randrange(ncls)
+        t0 = spec['passes'][0]['type']
+        att = {'type': t0, 'pre': 0, 'maxloop': 2, 'rules': [{'pre': 0, 'pat': [c, -1, -1], 'acts': [[], [('attach', -1)], [('attach', -2)]], 'cons': [None] * 3, 'ret': 0}]}
+        second = [[('insert',), ('put_copy', 0), ('endins',)]] if rng.random() < 0.6 else [[('put_copy', 0)]]
+        cp = {'type': t0, 'pre': 0, 'maxloop': 2, 'rules': [{'pre': 0, 'pat': [c], 'acts': second, 'cons': [None], 'ret': 0}]}
+        if rng.random() < 0.5:
+            cp['rules'].append({'pre': 0, 'pat': [-1, -1], 'acts': [[('put_copy', 1)], [('delete',)] if rng.random() < 0.5 else [('put_copy', -1)]], 'cons': [None, None], 'ret': 0})
+        spec['passes'].insert(0, cp)
+        spec['passes'].insert(0, att)
     if kind == 4 and spec['passes'][0]['type'] in ('sub', 'lb'):
         # delete everything / delete first or last
         spec['passes'][0]['rules'].insert(0, {'pre': 0, 'pat': [-1], 'acts': [[('delete',)]], 'cons': [None if rng.random() < 0.5 else ('lt', ('gattr', 0, 4), ('const', 2))], 'ret': 0})
